@@ -53,10 +53,32 @@ def run_seq(args):
     return hostrig.run_script(script)
 
 
+class _Guard:
+    """runs one job under an alarm: a run of the implementation that never returns ends the check as a machinery failure
+    within minutes instead of hanging it"""
+
+    def __init__(self, fn):
+        self.fn = fn
+
+    def __call__(self, x):
+        import signal
+
+        def _alarm(signum, frame):
+            raise RuntimeError("a run of the implementation did not return within the per-job limit")
+        old = signal.signal(signal.SIGALRM, _alarm)
+        signal.alarm(int(os.environ.get("BV_JOB_TIMEOUT", "900")))
+        try:
+            return self.fn(x)
+        finally:
+            signal.alarm(0)
+            signal.signal(signal.SIGALRM, old)
+
+
 def pmap(fn, items, procs=16, chunksize=64):
     items = list(items)
     if len(items) < 200:
         return [fn(x) for x in items]
+    fn = _Guard(fn)
     ctx = mp.get_context("fork")
     with ctx.Pool(procs) as pool:
         try:
